@@ -122,7 +122,7 @@ Definition add_peer_open (r : reg) (c : conn) (pe : peer) : reg * bool :=
         panicked := panicked r |}, false).
 Definition add_peer (r : reg) (c : conn) (pe : peer) (closed : bool) : reg * bool :=
   if closed then (r, has (p_addr pe) (underlays r)) else add_peer_open r c pe.
-(* before commit a699f83: IsClosed was not consulted *)
+(* before commit 2ee23d5: IsClosed was not consulted *)
 Definition add_peer_v0 (r : reg) (c : conn) (pe : peer) (closed : bool) : reg * bool :=
   add_peer_open r c pe.
 
@@ -165,7 +165,7 @@ Inductive event :=
 | SEnd (s : sid)                                 (* handler / header phase over: removeStream *)
 | RemoveStream (p : pid) (s : sid).              (* removeStream called directly *)
 
-(* [fixed]: the wrapper honours addStream's result (commit 626d95b) *)
+(* [fixed]: the wrapper honours addStream's result (commit 9c5bd49) *)
 Definition step_with (ap : reg -> conn -> peer -> bool -> reg * bool) (fixed : bool)
   (r : reg) (e : event) : reg :=
   match e with
@@ -208,8 +208,8 @@ Definition step_with (ap : reg -> conn -> peer -> bool -> reg * bool) (fixed : b
 Definition step := step_with add_peer true.
 Definition run_with ap fixed (evs : list event) : reg := fold_left (step_with ap fixed) evs init.
 Definition run := run_with add_peer true.
-Definition run_v0_enrol := run_with add_peer_v0 true.     (* before a699f83 *)
-Definition run_v0_wrapper := run_with add_peer false.     (* before 626d95b *)
+Definition run_v0_enrol := run_with add_peer_v0 true.     (* before 2ee23d5 *)
+Definition run_v0_wrapper := run_with add_peer false.     (* before 9c5bd49 *)
 
 (* the value addPeer returns *)
 Definition enrol_result (r : reg) (c : conn) (pe : peer) (closed : bool) : bool := snd (add_peer r c pe closed).
